@@ -296,7 +296,7 @@ fn check(plan: &Plan, _out: &RunOut) -> CheckOut {
     }
     // extensions
     for n in 1..=64usize {
-        for fill in [0u8, 0xff] {
+        for fill in [0u8, 0xff, 0x0a, 0x0d, 0x20, 0x3d] {
             let mut b = blob.clone();
             b.extend(std::iter::repeat(fill).take(n));
             judge(&mut co, "extension", format!("extended by {} bytes of {:#x}", n, fill), provider, &b);
@@ -355,7 +355,7 @@ pub fn property() -> Property {
         gen,
         check,
         finalize: no_finalize,
-        rule: "for each sampled (plaintext length 32..=64, plaintext texture in {random bytes, lower-case hex text, mixed-case hex text, base64 text, zeros, 0xff, punctuation and whitespace, decimal digits}, provider in {exact-match registry, AES-GCM wrapper}, wrapped-key length 16..=1024) the real encrypt_seed produces a blob (DEK and nonce drawn through the simulated entropy seam and therefore known), then every single-bit flip at every position, every single-byte change at every position (3 values quick, all 255 thorough), every truncation length, extensions by 1..=64 bytes, each provider fault on decrypt (error, different key, key lengths 0/16/31/33/64) alone and with one damaged byte, and each provider fault on encrypt (error, empty output, output longer than the 16-bit length field) is evaluated against the real decrypt_seed; evaluations = fault cases evaluated; distinct non-trivial = cases that changed at least one byte of the blob or one provider answer (every case does, by construction)",
+        rule: "for each sampled (plaintext length 32..=64, plaintext texture in {random bytes, lower-case hex text, mixed-case hex text, base64 text, zeros, 0xff, punctuation and whitespace, decimal digits}, provider in {exact-match registry, AES-GCM wrapper}, wrapped-key length 16..=1024) the real encrypt_seed produces a blob (DEK and nonce drawn through the simulated entropy seam and therefore known), then every single-bit flip at every position, every single-byte change at every position (3 values quick, all 255 thorough), every truncation length, extensions by 1..=64 bytes (of 0x00, 0xff, line feed, carriage return, blank, the equals sign), each provider fault on decrypt (error, different key, key lengths 0/16/31/33/64) alone and with one damaged byte, and each provider fault on encrypt (error, empty output, output longer than the 16-bit length field) is evaluated against the real decrypt_seed; evaluations = fault cases evaluated; distinct non-trivial = cases that changed at least one byte of the blob or one provider answer (every case does, by construction)",
         assumptions: &["harness providers are non-malleable by construction, so a provider that ignores damaged bytes cannot cause a false alarm", "no scheduler is involved: this is fault enumeration on the KmsProvider seam and the stored blob"],
         real: "real code: roughenough::kms::EnvelopeEncryption::{encrypt_seed, decrypt_seed}, ring AES-256-GCM",
         stub: "stubs: KmsProvider implementations (registry, AES-GCM wrapper, XOR, fault injectors), entropy (ring SystemRandom stand-in)",
